@@ -2,6 +2,7 @@
 #include "vh.h"
 #include <stdint.h>
 #include "bpm.h"
+#include "sequence_distance.h"
 #include "../oracle/editdist.h"
 
 const char* vh_property = "C11";
@@ -43,10 +44,13 @@ static uint64_t secC(int tier)
         return t;
 }
 static uint64_t secE(int tier) { return tier ? (1u << 18) : (1u << 14); }
+/* F: the only user of the kernel, calc_distance(), on deterministic pairs whose distance is far above 255 */
+static const int FLEN[8][2] = {{300, 280}, {520, 260}, {600, 600}, {700, 513}, {1100, 900}, {1100, 1100}, {2000, 1500}, {257, 256}};
+#define NF (8 * 6)
 
 uint64_t vh_total(int tier)
 {
-        return secA(tier) + secC(tier) + (uint64_t)ND * DSLICES + secE(tier);
+        return secA(tier) + secC(tier) + (uint64_t)ND * DSLICES + secE(tier) + NF;
 }
 
 static void judge(const char* which, int got, int want, const uint8_t* t, int n, const uint8_t* p, int m)
@@ -114,9 +118,12 @@ void vh_describe(uint64_t id, int tier, char* buf, size_t n)
         }else if(id < secA(tier) + secC(tier) + ND * DSLICES){
                 uint64_t k = id - secA(tier) - secC(tier);
                 snprintf(buf, n, "D: one-edit family around a 13-symbol text of length %d (slice %d/%d)", DLEN[k / DSLICES], (int)(k % DSLICES), DSLICES);
-        }else{
+        }else if(id < secA(tier) + secC(tier) + ND * DSLICES + secE(tier)){
                 snprintf(buf, n, "E: one-edit family around binary text #%llu of length %d at 8-bit width (3 blocks)",
                          (unsigned long long)(id - secA(tier) - secC(tier) - ND * DSLICES), tier ? 18 : 14);
+        }else{
+                uint64_t k = id - secA(tier) - secC(tier) - ND * DSLICES - secE(tier);
+                snprintf(buf, n, "F: calc_distance on a deterministic pair of lengths %d and %d (seed %d), both argument orders", FLEN[k / 6][0], FLEN[k / 6][1], (int)(k % 6));
         }
 }
 
@@ -224,6 +231,40 @@ int vh_case(uint64_t id, int tier)
                 det_text(len, t, (uint64_t)vh_seed);
                 family(t, len, stride, (int)(k % DSLICES), DSLICES, len <= 128, 13);
                 vh_count("block_boundary_family_cases");
+        }else if(id >= secA(tier) + secC(tier) + ND * DSLICES + secE(tier)){
+                uint64_t k = id - secA(tier) - secC(tier) - ND * DSLICES - secE(tier);
+                static uint8_t a[4096], b[4096];
+                int la = FLEN[k / 6][0], lb = FLEN[k / 6][1], want;
+                float d1, d2;
+                det_text(la, a, 1000 + k);
+                det_text(lb, b, 2000 + k);
+                if(k % 2){
+                        /* related pair: b is a with every 3rd symbol changed (distance about lb/3, well above 255 for the long ones) */
+                        int i;
+                        for(i = 0; i < lb; i++){
+                                b[i] = (i % 3 == 0) ? (uint8_t)((a[i] + 1) % 13) : a[i];
+                        }
+                }
+                want = ed_substring(a, la, b, lb > 1024 ? 1024 : lb);
+                if(la == lb){
+                        /* equal lengths: the implementation takes the second argument as text */
+                        want = ed_substring(b, lb, a, la > 1024 ? 1024 : la);
+                }
+                d1 = calc_distance(a, b, la, lb);
+                vh_count("library_calls");
+                if((int)d1 != want){
+                        vh_fail("sem:calc_distance-mismatch", "calc_distance returns %g for lengths %d/%d, substring edit distance is %d", (double)d1, la, lb, want);
+                }
+                if(la != lb){
+                        d2 = calc_distance(b, a, lb, la);
+                        if((int)d2 != want){
+                                vh_fail("sem:calc_distance-mismatch", "calc_distance (swapped arguments) returns %g for lengths %d/%d, substring edit distance is %d", (double)d2, lb, la, want);
+                        }
+                }
+                if(want > 255){
+                        vh_count("distances_above_255");
+                        vh_count("nontrivial_distance_strictly_between");
+                }
         }else{
                 uint64_t x = id - secA(tier) - secC(tier) - ND * DSLICES;
                 int n = tier ? 18 : 14;
